@@ -7,6 +7,41 @@ BASELINE = ("cd /repo && cargo nextest run --workspace --no-fail-fast --tool-con
 
 # id -> (engine, technique, level text, level note, design ref)
 CHECKS = {
+ "C01": ("vrt",
+   "property-based testing (proptest) over a compiled type zoo: round-trip oracle on generated values and back-to-back message histories",
+   "Every definition of a fixed zoo of ~1700 types (systematic kind x constraint x position table, random modules, shape and version-pair families), compiled through the real asn_to_rust! pipeline, is driven with schema-directed boundary-biased values, alone and in histories of 1..4 messages in one writer at every bit alignment; decode(encode(v)) == v, bits consumed == bits produced, 0 bits remaining. Exploration: program space is a fixed sample (plus a seeded zoo in thorough), value space is sampled.",
+   "Trusted: the ValueReader/ValueWriter bridges (public Reader/Writer traits only). Regions of the two open known findings (lists/known-multiplier strings >= 16384 elements; open types >= 16384 octets) are excluded by construction and probed by replay.",
+   "5/C01"),
+ "C02": ("vrt",
+   "differential testing against an independent X.691 reference codec on proptest-generated values (both directions)",
+   "For every conformance-profile definition of the zoo and generated in-profile values: UperWriter bits == reference encoder bits bit for bit, and UperReader on the reference bits returns the value and consumes exactly them. The reference (vcore::refcodec/refper) was written from the standard, shares no code with asn1rs, validates itself by round trip on every case and is pinned to hand-derived and repository vectors.",
+   "Relative to my reading of X.691 (DESIGN.md section 7). Same exclusions as C01.",
+   "5/C02"),
+ "C03": ("vrt",
+   "bounded-exhaustive enumeration of SEQUENCE/SET shapes x presence patterns with random payloads, preamble/reference/decode oracles",
+   "All 142 SEQUENCE + 142 SET shapes with <= 3 components (5 in thorough) are compiled through the real pipeline; for each all 2^k presence patterns x 3 payloads are encoded: preamble computed from the shape, full bits == reference, decode returns the presence written, refusal only ExtensionFieldsInconsistent for the documented pattern.",
+   "Component types rotate through six small types; shapes beyond N components are not covered.",
+   "5/C03"),
+ "C05": ("vrt",
+   "property-based cross-version testing on compiled schema pairs with a sentinel message and projection/lift oracles",
+   "60 compiled (V1, V2) pairs covering SEQUENCE/SET/CHOICE/ENUMERATED, 0..2 pre-existing and 1..8 appended additions in three open-type length classes, four placements; generated values of either version are written with a sentinel behind them and read by the other version: content == projection/lift on the abstract schema, reader stops at the end of the message, sentinel decodes, writer bits == X.691.",
+   "Pairs are a fixed family; additions >= 16384 octets fall under the open known finding about fragmented open types.",
+   "5/C05"),
+ "C06": ("vrt",
+   "property-based negative testing: single-node constraint violations derived from generated valid values, plus forged CHOICE/ENUMERATED indices",
+   "For generated valid values of every zoo type each reached constrained node is pushed outside its constraint (INTEGER lb-1/ub+1/far, SIZE lb-1/0/ub+1/2ub+1, illegal characters at first/middle/last position): non-extensible -> Err (Ok/panic is a violation, with what the bits decode to), extensible -> Ok + round trip + X.691 extension form. CHOICE/ENUMERATED indices are forged through hand-written descriptor types.",
+   "Values that the generated Rust field type cannot hold are unrepresentable and skipped (counted).",
+   "5/C06"),
+ "C10": ("vprim",
+   "bounded-exhaustive enumeration + boundary families + proptest random primitives against reference PER primitives",
+   "Every public PackedWrite/PackedRead primitive is called directly: all constrained whole numbers with lb in [-40,40], span <= 300, v in [lb-2,ub+2] (exhaustive), all ordered bound pairs of the 2^k boundary family, length determinants / octet strings / bit strings for a table of size constraints x lengths in every fragment-count class up to 200000 units, indices for 1..300 root items; bits == X.691 reference, read returns the value and advances by the produced bits (checked with a sentinel), inadmissible arguments -> Err.",
+   "Trusted: vcore::refper. write_normally_small_length follows asn1rs's count-1 convention (bit-exact for v <= 63 only).",
+   "5/C10"),
+ "C20": ("vprim",
+   "enumeration of boundary families + proptest-generated item sequences, round-trip and byte-consumption oracle",
+   "All listed lengths, tags (4 classes x 0..30), booleans and every boolean content octet, i64/u64 boundary families through the raw primitives and through BasicWriter/BasicReader with Integer<i8..u64>, Boolean and Enumerated (1..300 items, every index), alone and in generated sequences of 2..8 items in one buffer: value read == value written, bytes consumed == bytes written, nothing remains.",
+   "Integers are read back with the byte count the writer produced (the raw primitives carry no length).",
+   "5/C20"),
  "C11": ("vprim",
    "bounded-exhaustive enumeration + proptest random cases and operation histories against a Vec<bool> model",
    "Every single write/read operation on (&mut [u8], &mut usize), (&[u8], &mut usize) and Bits with both buffers up to 5 bytes "
@@ -55,6 +90,8 @@ def main():
         "engines": [
             {"name": "vprim", "path": "/verif/engine/vprim", "serves_properties": ["C10", "C11", "C20"],
              "kind_free_text": "Rust binary using proptest + bounded-exhaustive enumeration against models/reference primitives; runs its body in 16 worker processes"},
+            {"name": "vrt", "path": "/verif/engine/vrt", "serves_properties": ["C01", "C02", "C03", "C04", "C05", "C06", "C16", "C17", "C18", "C19"],
+             "kind_free_text": "Rust binary over a type zoo compiled from generated ASN.1 through asn_to_rust! (zoogen -> zoo crates); proptest value strategies, reference X.691 codec, bridges over the public Reader/Writer traits"},
         ],
         "checks": checks,
         "notes": "All checks: ./check <ID> <quick|thorough>; exit 0 held / 1 violation / 2 infrastructure. Known findings: /verif/KNOWN_FINDINGS.txt. Seeds: VERIF_SEED.",
